@@ -40,6 +40,7 @@ type stream struct {
 	lastAt   time.Duration
 	eof      bool // writer closed gracefully (after everything queued)
 	reset    bool // connection torn down
+	finAck   bool // the reader of this stream has closed gracefully: the next write is accepted and dropped, later ones fail
 	rq, wq   simrt.WaitQ
 	prof     Profile
 	total    int64 // bytes ever written
@@ -60,6 +61,7 @@ type Event struct {
 
 // Conn is one endpoint. It implements net.Conn.
 type Conn struct {
+	CutGraceful bool // CutAfterTotal closes with FIN (finClose) instead of a reset
 	CutFired bool // an injected CutAfterTotal reset has happened on this endpoint
 	n       *Net
 	ID      int
@@ -296,6 +298,14 @@ func (c *Conn) Write(p []byte) (int, error) {
 	if len(p) == 0 {
 		return 0, nil
 	}
+	if s.finAck {
+		// the peer has closed: the local stack still accepts this write, the peer answers it with a reset
+		s.finAck = false
+		s.reset = true
+		c.WriteSum += int64(len(p))
+		c.event("write", len(p), p)
+		return len(p), nil
+	}
 	if c.OnWrite != nil {
 		c.OnWrite(c, p)
 	}
@@ -333,8 +343,13 @@ func (c *Conn) Write(p []byte) (int, error) {
 		if keep > 0 {
 			c.enqueue(s, data[:keep])
 		}
-		sim.Fault("conn_cut")
 		c.CutFired = true
+		if c.CutGraceful {
+			sim.Fault("conn_fin")
+			c.finClose()
+			return len(p), nil
+		}
+		sim.Fault("conn_cut")
 		c.teardown()
 		return len(p), nil // the local stack accepted the bytes; the failure shows on the next operation
 	}
@@ -428,6 +443,19 @@ func (c *Conn) Close() error {
 	c.n.S.WakeAll(&c.in.wq)
 	c.n.S.WakeAll(&c.in.rq)
 	return nil
+}
+
+// finClose is an orderly close by this endpoint (FIN): the peer drains what was queued and then reads EOF; the peer's
+// next write is still accepted by its local stack (and lost), every later one fails — what a TCP peer sees after close().
+func (c *Conn) finClose() {
+	c.closed = true
+	c.event("close", 0, nil)
+	c.out.eof = true
+	c.in.finAck = true
+	c.in.buf, c.in.inflight = nil, nil
+	c.n.S.WakeAll(&c.out.rq)
+	c.n.S.WakeAll(&c.in.wq)
+	c.n.S.WakeAll(&c.in.rq)
 }
 
 // teardown resets the connection in both directions (bytes already queued towards the peer
